@@ -385,5 +385,14 @@ def finish(prop: str, tier: str, seed: int, t0: float, st: ProofStatus, res: Res
     return 1 if violations else 0
 
 
+def pmap(fn: Callable, items: list, procs: int = 16, chunksize: int = 1) -> list:
+    """ordered parallel map on non-daemonic worker processes (workers may start process pools themselves)"""
+    import concurrent.futures as cf
+    if not items:
+        return []
+    with cf.ProcessPoolExecutor(max_workers=min(procs, len(items))) as ex:
+        return list(ex.map(fn, items, chunksize=chunksize))
+
+
 def sub_rng(seed: int, *tags: Any) -> random.Random:
     return random.Random(hashlib.sha256(repr((seed, tags)).encode()).digest())
